@@ -459,9 +459,17 @@ const subDomainNum = 4
 // prefix filter.
 func hashableSubdomains(domain string) (sub []string) {
 	pubSuf, icann := publicsuffix.PublicSuffix(domain)
-	if !icann {
-		// Check the full private domain space.
-		pubSuf = ""
+	for !icann {
+		// Check the full private domain space, but not the ICANN public suffix
+		// that the private suffix is registered under, if there is one.
+		_, parent, ok := strings.Cut(pubSuf, ".")
+		if !ok {
+			pubSuf = ""
+
+			break
+		}
+
+		pubSuf, icann = publicsuffix.PublicSuffix(parent)
 	}
 
 	dotsNum := 0
